@@ -51,8 +51,40 @@ enum BackendKind {
     Serial,
 }
 
+// Verification seam (off unless built with `--cfg curve25519_dalek_verif`): lets a
+// deterministic simulator answer the dispatcher's question instead of CPUID.
+// `compiled_mask`: bit0 serial, bit1 avx2, bit2 avx512ifma compiled in.
+// Return value: 0 = no opinion (fall through to CPUID), 1 serial, 2 avx2, 3 avx512ifma.
+#[cfg(curve25519_dalek_verif)]
+extern "Rust" {
+    fn curve25519_dalek_verif_pick_backend(compiled_mask: u8) -> u8;
+}
+
 #[inline]
 fn get_selected_backend() -> BackendKind {
+    #[cfg(curve25519_dalek_verif)]
+    {
+        #[allow(unused_mut)]
+        let mut mask = 1u8;
+        #[cfg(curve25519_dalek_backend = "simd")]
+        {
+            mask |= 2;
+        }
+        #[cfg(all(curve25519_dalek_backend = "unstable_avx512", nightly))]
+        {
+            mask |= 4;
+        }
+        // SAFETY: the symbol is provided by the verification driver that enables this cfg.
+        match unsafe { curve25519_dalek_verif_pick_backend(mask) } {
+            1 => return BackendKind::Serial,
+            #[cfg(curve25519_dalek_backend = "simd")]
+            2 => return BackendKind::Avx2,
+            #[cfg(all(curve25519_dalek_backend = "unstable_avx512", nightly))]
+            3 => return BackendKind::Avx512,
+            _ => {}
+        }
+    }
+
     #[cfg(all(curve25519_dalek_backend = "unstable_avx512", nightly))]
     {
         cpufeatures::new!(cpuid_avx512, "avx512ifma", "avx512vl");
